@@ -122,6 +122,25 @@ def assigned_names(nodes) -> set:
     return out
 
 
+MUTATORS = {"append", "extend", "insert", "pop", "remove", "clear", "update", "add", "discard", "setdefault", "sort", "reverse", "write", "popitem"}
+
+
+def mutated_names(nodes) -> set:
+    """local names whose *object* is mutated in the statements (method call, item store/delete)"""
+    out = set()
+    for st in nodes:
+        for n in ast.walk(st):
+            if isinstance(n, ast.Call) and isinstance(n.func, ast.Attribute) and n.func.attr in MUTATORS and isinstance(n.func.value, ast.Name):
+                out.add(n.func.value.id)
+            if isinstance(n, ast.Subscript) and isinstance(n.ctx, (ast.Store, ast.Del)):
+                b = n.value
+                while isinstance(b, ast.Subscript):
+                    b = b.value
+                if isinstance(b, ast.Name):
+                    out.add(b.id)
+    return out
+
+
 class InterpCore:
     def __init__(self, ctx: Ctx, reg):
         self.ctx = ctx
@@ -342,6 +361,10 @@ class InterpCore:
             if name in f.locals:
                 v = f.locals[name]
                 if isinstance(v, MaybeUnbound):
+                    if type(v.value).__name__ == "LazyUnknown":
+                        if self.ctx.check(v.bound) == z3.unsat:
+                            raise mk_exc(UnboundLocalError, name, where=fr.where())
+                        raise Unsupported(v.value.msg)
                     if self.ctx.branch(v.bound, f"bound({name})"):
                         f.locals[name] = v.value
                         return v.value
@@ -535,6 +558,11 @@ class InterpCore:
             if isinstance(a, (bool, SymBool)) and isinstance(b, (bool, SymBool)):
                 return mk_bool(z3.If(c, ops.z3_of_bool(a), ops.z3_of_bool(b)))
             return mk_int(z3.If(c, ops.z3_of_int(a), ops.z3_of_int(b)))
+        from .sym import kind_of_strlike, mk_str, str_to_z3
+
+        ka, kb = kind_of_strlike(a), kind_of_strlike(b)
+        if ka and ka == kb:
+            return mk_str(z3.If(c, str_to_z3(a), str_to_z3(b)), ka)
         raise Unsupported("ite on non scalar in spec")
 
     def ev_NamedExpr(self, e, fr):
